@@ -4,6 +4,7 @@
 #include <stdint.h>
 #include <stddef.h>
 #include <string>
+#include <vector>
 
 namespace sim {
 
@@ -61,5 +62,9 @@ struct NoPreempt { NoPreempt() { no_preempt_begin(); } ~NoPreempt() { no_preempt
 typedef void (*fatal_fn)(const char *cls, const std::string &report);
 void set_fatal_handler(fatal_fn f);
 std::string dump_threads();
+// schedule trace (off by default): every context switch as (step, yield kind, from tid, to tid)
+struct Switch { uint64_t step; int kind, from, to; };
+void trace_enable(bool on);
+const std::vector<Switch> &trace();
 
 } // namespace sim
